@@ -2,7 +2,7 @@
 
 spec/dispatch/DispatchLedger.tla  port-level ledger + the property's invariants (shared by model and traces)
 spec/dispatch/CUResource.tla      the dispatcher's per-CU allocation masks, shaped like internal/resource
-spec/dispatch/Dispatch.tla        design model: dispatchers, round-robin/greedy placement, completion accounting
+spec/dispatch/Dispatch.tla        design model: dispatchers, round-robin/greedy/partition placement, completion accounting
 spec/dispatch/MC_Dispatch*.cfg    exhaustive model checking (+ liveness under fair CUs)
 spec/dispatch/DispatchScen.tla    behaviours -> environment scenarios replayed on the real cp.CommandProcessor
 spec/dispatch/DispatchTrace.tla   port-event traces of the real CP checked against the ledger
@@ -282,7 +282,8 @@ def run(ctx, selftest=False):
         r = ctx.tlc_expect_ok(D, 'MC_Dispatch.tla', 'MC_Dispatch_live.cfg', timeout=900)
         ctx.log('MC_Dispatch_live (EveryKernelCompletes under fair CUs/driver): %d distinct states' % r.distinct)
     if thorough and not nomc:
-        for cfg in ['MC_Dispatch.cfg', 'MC_Dispatch_asimpl.cfg', 'MC_Dispatch_greedy.cfg', 'MC_Dispatch_3cu.cfg']:
+        for cfg in ['MC_Dispatch.cfg', 'MC_Dispatch_asimpl.cfg', 'MC_Dispatch_greedy.cfg', 'MC_Dispatch_partition.cfg',
+                    'MC_Dispatch_3cu.cfg']:
             r = ctx.tlc_expect_ok(D, 'MC_Dispatch.tla', cfg, workers=vlib.NCPU, timeout=3000)
             ctx.log('%s: %d distinct states, depth %d' % (cfg, r.distinct, r.depth))
         ctx.cov['exhaustive'] = True
@@ -352,11 +353,13 @@ def run(ctx, selftest=False):
     else:
         ctx.notes.append('greedy/partition placement not exercised: amd/timing/cp/verif_export.go (fixes/C09-hook-dispatch-alg.diff) is not in the tree')
 
-    distinct = {json.dumps([{k: v for k, v in r.items() if k != 'seq'} for r in recs], sort_keys=True) for _, recs in parts}
-    nt = sum(1 for _, recs in parts if nontrivial(recs))
+    def key(recs):
+        return json.dumps([{k: v for k, v in r.items() if k != 'seq'} for r in recs], sort_keys=True)
+    distinct = {key(recs) for _, recs in parts}
+    nt = len({key(recs) for _, recs in parts if nontrivial(recs)})
     ctx.sample({'trace_excerpt': parts[len(behs) + 2][1][:12] if len(parts) > len(behs) + 2 else parts[-1][1][:12]})
     events = sum(s['events'] for s in (st0, st1, st2, st3, st4))
-    ctx.cov.update({'evaluations': len(parts), 'distinct_nontrivial': min(nt, len(distinct)), 'events_validated': events,
+    ctx.cov.update({'evaluations': len(parts), 'distinct_nontrivial': nt, 'distinct_traces': len(distinct), 'events_validated': events,
                     'map_requests_checked': sum(s.get('ev_MapWG', 0) for s in (st0, st1, st2, st3, st4)),
                     'full_cu_probes': st1.get('probes', 0) + st2.get('probes', 0),
                     'scenario_steps': {'done': st1.get('steps_done', 0), 'skipped': st1.get('steps_skipped', 0)},
@@ -379,7 +382,7 @@ def run(ctx, selftest=False):
         'akitabench mini engine and fake connection stand in for akita SerialEngine/DirectConnection',
         'port hooks observe every message of the CP (akita v4.9.0 defaultPort)',
         'fake CUs report finite resources through cp.CUInterfaceForCP; the number of dispatchers is reduced by re-slicing the public field CommandProcessor.Dispatchers',
-        'only the round-robin placement is reachable through the public cp builder; greedy is model-checked only, partition not modelled',
+        'only the round-robin placement is reachable through the public cp builder; greedy and partition are model-checked, and exercised on the real code only when the verif hook amd/timing/cp/verif_export.go is in the tree',
         'the fit hint of Launch lines (which idle CU can hold one work-group) comes from the harness, using the allocation granularity 16 SGPRs / 4 VGPRs / 256 B LDS',
         'emulation-CU runs execute the one-instruction kernel s_endpgm',
     ]
